@@ -558,4 +558,64 @@ Proof.
     exists (n1 + n2), (m1 + m2). intros f Hf ys r Hr. cbn [flat_map]. rewrite map_app, <- !app_assoc.
     rewrite <- Nat.add_assoc. apply H1; [lia|]. apply H2; [lia|assumption].
 Qed.
+
+(* ---------- the two outputs have the same spellings ---------- *)
+Lemma rel_of_inert ne name t z :
+  inert_rel t z -> rel ne t (mkHT (hk z) (hw z) (ht z) ([name] ++ hh z)).
+Proof.
+  intros ((Hk & Ht) & HiM & HiS). split; [split; assumption|]. right. split; [assumption|].
+  unfold inertS in *. cbn [hk ht hh]. intros Hid. destruct (HiS Hid) as [H|H]; [left; now apply mem_app_r|now right].
+Qed.
+
+Lemma rel_white ne w w' l l' : Forall2 (rel ne) l l' -> Forall2 (rel ne) (set_w_hd w l) (hset_w w' l').
+Proof.
+  intros H. destruct H as [|t h l l' Hth Hr]; cbn; [constructor|]. constructor; [|assumption].
+  destruct Hth as ((H1 & H2) & Hc). split; [split; assumption|]. exact Hc.
+Qed.
+
+Lemma rel_hsadd_inert ne name w w' l l' :
+  Forall2 inert_rel l l' -> Forall2 (rel ne) (set_w_hd w l) (hsadd [name] (hset_w w' l')).
+Proof.
+  intros H.
+  assert (H0 : Forall2 (rel ne) l (hsadd [name] l')).
+  { induction H as [|t z l l' Htz Hr IH]; cbn; constructor; [now apply rel_of_inert|assumption]. }
+  destruct H as [|t z l l' Htz Hr]; cbn; [constructor|]. inversion H0 as [|? ? ? ? Hh Ht]; subst.
+  constructor; [|assumption]. destruct Hh as ((H1 & H2) & Hc). split; [split; assumption|]. exact Hc.
+Qed.
+
+Lemma rel_sm name ps al b b' d :
+  List.length fs <= d ->
+  Forall2 same_tok b' b -> forallb tx b' = true -> List.length al = List.length ps ->
+  Forall (fun x => forallb (arg_tok2 fs) x = true) al ->
+  (forall t, In t b -> (is_id t || negb (mem (tt t) ps)) = true) ->
+  Forall2 (rel [Some name; None])
+          (sm ps (exM d al) b')
+          (hsadd [name] (subst_out (gS d) (combine ps (map (map hl0) al)) (map btok_of b))).
+Proof.
+  intros Hd Hsame Htx Hlen Hal Hpar. induction Hsame as [|x' x b' b (Hk & Ht) Hr IH]; [constructor|].
+  cbn [forallb] in Htx. apply andb_true_iff in Htx. destruct Htx as [Hx' Htx].
+  cbn [sm flat_map map subst_out]. fold (sm ps (exM d al) b').
+  assert (Hpar' : forall t, In t b -> (is_id t || negb (mem (tt t) ps)) = true) by (intros; apply Hpar; now right).
+  specialize (IH Htx Hpar'). specialize (Hpar x (or_introl eq_refl)).
+  unfold Spec.C03.param. cbn [btok_of bk bt]. change (tkind_eqb (tk x) KId) with (is_id x). rewrite Ht.
+  assert (Hsingle : Forall2 (rel [Some name; None]) [x'] (hsadd [name] [lift [] (btok_of x)])).
+  { cbn. constructor; [|constructor]. split; [split; cbn; auto|]. left. split; [assumption|].
+    intros s. cbn. unfold mem. cbn [existsb]. now rewrite String.eqb_sym. }
+  destruct (is_id x) eqn:Hid.
+  - destruct (index_of (tt x) ps 0) as [i|] eqn:Hi.
+    + rewrite (sel_combine_index ps (map (map hl0) al) (tt x) 0 i Hi) by (now rewrite map_length).
+      rewrite Nat.sub_0_r. unfold hsadd. rewrite map_app. fold (hsadd [name]). apply Forall2_app; [|exact IH].
+      pose proof (index_of_range _ _ _ _ Hi) as Hri.
+      assert (Hi_al : i < List.length al) by lia.
+      change (nth i (map (map hl0) al) []) with (nth i (map (map hl0) al) (map hl0 [])). rewrite map_nth.
+      unfold exM. change (@nil tok) with (flat_map (E tb d [None; None]) []) at 1. rewrite map_nth.
+      apply rel_hsadd_inert. apply arg_out_rel; [assumption|].
+      rewrite Forall_forall in Hal. apply Hal. now apply nth_In.
+    + rewrite (sel_combine_none ps _ (tt x) 0 Hi). change (x' :: sm ps (exM d al) b') with ([x'] ++ sm ps (exM d al) b').
+      change (lift [] (btok_of x) :: ?r) with ([lift [] (btok_of x)] ++ r).
+      unfold hsadd. rewrite map_app. fold (hsadd [name]). apply Forall2_app; [exact Hsingle|exact IH].
+  - cbn in Hpar. apply negb_true_iff in Hpar. rewrite (index_of_none_mem _ _ 0 Hpar).
+    change (x' :: sm ps (exM d al) b') with ([x'] ++ sm ps (exM d al) b').
+    unfold hsadd. cbn [map]. constructor; [|exact IH]. inversion Hsingle; subst. assumption.
+Qed.
 End FunLikeG.
